@@ -137,6 +137,10 @@ func (f *Frame) instr(b *ssa.BasicBlock, ins ssa.Instruction, st *State) {
 		}
 		empty := fmt.Sprintf("(mk_%s ((as const (Array %s Bool)) false) ((as const (Array %s %s)) %s) 0)", mv, kv[0], kv[0], kv[1], z)
 		g.heapSet(st, h, fmt.Sprintf("(store %s %s %s)", g.heapGet(st, h), loc, empty))
+		if g.freshMaps == nil {
+			g.freshMaps = map[string]bool{}
+		}
+		g.freshMaps[loc] = true
 		f.vals[x] = Val{Sort: ms, Term: loc, GoT: x.Type()}
 	case *ssa.Lookup:
 		f.lookup(x, st, reach)
@@ -145,6 +149,7 @@ func (f *Frame) instr(b *ssa.BasicBlock, ins ssa.Instruction, st *State) {
 		k := f.val(x.Key, st)
 		v := f.val(x.Value, st)
 		h, mv := g.sorts.mapHeap(m.Sort)
+		delete(g.freshMaps, m.Term)
 		f.nopanic("map_not_nil", reach, fmt.Sprintf("(not (= %s 0))", m.Term), x.Pos())
 		cur := fmt.Sprintf("(select %s %s)", g.heapGet(st, h), m.Term)
 		nv := fmt.Sprintf("(mk_%s (store (mhas_%s %s) %s true) (store (mval_%s %s) %s %s) (ite (select (mhas_%s %s) %s) (mcnt_%s %s) (+ (mcnt_%s %s) 1)))",
@@ -887,6 +892,29 @@ func (f *Frame) loopEnv(h *ssa.BasicBlock, st *State, phiOverride map[*ssa.Phi]V
 		}
 		if strings.TrimPrefix(phi.Comment, "#") != "rangeindex" {
 			continue
+		}
+		// the ranged slice is the one whose length bounds the index in the loop condition: idx+1 < len(X)
+		var rangedVal ssa.Value
+		for _, hi := range h.Instrs {
+			cmp, ok := hi.(*ssa.BinOp)
+			if !ok || cmp.Op != token.LSS {
+				continue
+			}
+			inc, ok := cmp.X.(*ssa.BinOp)
+			if !ok || inc.X != ssa.Value(phi) {
+				continue
+			}
+			if lc, ok := cmp.Y.(*ssa.Call); ok {
+				if bi, ok := lc.Call.Value.(*ssa.Builtin); ok && bi.Name() == "len" && len(lc.Call.Args) == 1 {
+					rangedVal = lc.Call.Args[0]
+				}
+			}
+		}
+		if rangedVal != nil {
+			if v, ok := f.vals[rangedVal]; ok {
+				env.vars["ranged"] = v
+				continue
+			}
 		}
 		for b := range f.loopBlk[h] {
 			for _, bi := range b.Instrs {
